@@ -215,6 +215,14 @@ func (opt *Option) DeepCopy() Option {
 	for _, assignment := range opt.Assignments {
 		clone.Assignments = append(clone.Assignments, assignment.DeepCopy())
 	}
+	if opt.Default != nil {
+		clone.Default = &OptionDefault{
+			ArgsValues: make([]any, 0, len(opt.Default.ArgsValues)),
+		}
+		for _, value := range opt.Default.ArgsValues {
+			clone.Default.ArgsValues = append(clone.Default.ArgsValues, deepCopyValue(value))
+		}
+	}
 
 	return clone
 }
